@@ -329,8 +329,24 @@ def main_check(pid, tier):
             kf_hits.setdefault(k["id"], {"count": 0, "what": k.get("what", ""), "example_index": i})["count"] += 1
         else:
             new.setdefault(vclass(v), []).append((i, v))
+    # every listed open finding is re-checked from its committed replay on every run, whether or not this run's sample reached
+    # it: the line is printed iff the finding still reproduces on the tree under test
+    for k in kf:
+        if k.get("status") != "open" or k.get("property") != pid or not k.get("replay") or k["id"] in kf_hits:
+            continue
+        try:
+            with open(os.path.join(VERIF, k["replay"])) as f:
+                scn = json.load(f)["scenario"]
+            res = mod.execute(scn)
+            if any(match_known(pid, v, [k]) is not None for v in res.get("violations") or []):
+                kf_hits[k["id"]] = {"count": 0, "what": k.get("what", ""), "example_index": -1}
+        except Exception as e:  # pylint: disable=broad-except
+            sys.stdout.write("note: replay of listed finding %s could not be executed: %r\n" % (k["id"], e))
     for kid, h in sorted(kf_hits.items()):
-        sys.stdout.write("KNOWN-FINDING: property=%s %s (%s; %d occurrences, e.g. run index %d)\n" % (pid, kid, h["what"], h["count"], h["example_index"]))
+        if h["example_index"] < 0:
+            sys.stdout.write("KNOWN-FINDING: property=%s %s (%s; reproduced from its committed replay, not reached by this run's sample)\n" % (pid, kid, h["what"]))
+        else:
+            sys.stdout.write("KNOWN-FINDING: property=%s %s (%s; %d occurrences, e.g. run index %d)\n" % (pid, kid, h["what"], h["count"], h["example_index"]))
     status = 0
     reported = 0
     unreproduced = []
